@@ -98,6 +98,17 @@ Bad(r) ==
              /\ (\A a \in AllV : UndQuirkEdges(Base(r), a, row(r.edges[2], a)))
           THEN {"und_quirk_edges"}
           ELSE chk("edges", LAMBDA v : \A a \in AllV : EdgesOK(h, a, row(v, a), 0)))
+    \* identity of the listed edges (index-like edge ids only; the UndirectedAdaptor finding doubles rows; an
+    \* undirected Csr stores an edge in both rows under two different edge indices, by design)
+    \cup (IF r.enc \in {"graph", "stable", "csr", "list"} /\ r.adaptor # "und" /\ (r.enc = "csr" => r.dir)
+          THEN chk("eids", LAMBDA v : \A a \in AllV : LET rw == row(v, a) IN
+                                        /\ \A k \in DOMAIN rw : rw[k][1] >= 0 /\ rw[k][2]
+                                        /\ NoDup([k \in DOMAIN rw |-> rw[k][1]]))
+          ELSE {})
+    \* ... and in every type with index-like ids an id appears once per row (also in an undirected Csr)
+    \cup (IF r.enc \in {"graph", "stable", "csr", "list"} /\ r.adaptor # "und"
+          THEN chk("eids", LAMBDA v : \A a \in AllV : \A k \in DOMAIN row(v, a) : ~row(v, a)[k][3])
+          ELSE {})
     \cup chk("edges_out", LAMBDA v : \A a \in AllV : EdgesOK(h, a, row(v, a), 0))
     \cup chk("edges_in", LAMBDA v : \A a \in AllV : EdgesOK(h, a, row(v, a), 1))
     \cup chk("adj", LAMBDA v : \A a, b \in h.V : v[a + 1][b + 1] = Adjacent(h, a, b))
